@@ -18,7 +18,7 @@ OWN = {
     "C01": {"missed_breakpoint_hit", "spurious_stop", "stop_out_of_order", "stop_reason_wrong",
             "pc_not_in_execution", "place_ne_pc", "line_ne_pc_line", "command_failed", "exit_not_reported"},
     "C02": {"residual_patch", "breakpoint_not_patched", "output_differs", "exit_status_differs", "run_to_exit_failed"},
-    "C03": {"pc_not_in_execution", "ran_to_exit", "went_backwards", "stopped_before_return", "wrong_caller_frame",
+    "C03": {"signal_stop_moved_program", "pc_not_in_execution", "ran_to_exit", "went_backwards", "stopped_before_return", "wrong_caller_frame",
             "not_one_instruction", "deeper_activation_same_function", "inside_callee_past_boundary",
             "past_first_line_boundary", "inside_callee", "not_a_statement_boundary", "not_admissible",
             "silent_cut_short", "place_ne_pc", "line_ne_pc_line", "command_failed"},
